@@ -625,7 +625,6 @@ func wfExpect(l *layers.DHCPv4) (bool, *layers.DHCPv4) {
 	w := copyLayer(l)
 	ok := len(w.ClientIP) == 4 && len(w.YourClientIP) == 4 && len(w.NextServerIP) == 4 && len(w.RelayAgentIP) == 4 &&
 		len(w.ClientHWAddr) <= 16 && len(w.ServerName) == 64 && len(w.File) == 128
-	size := 241
 	for _, o := range w.Options {
 		switch o.Type {
 		case layers.DHCPOptEnd:
@@ -634,16 +633,11 @@ func wfExpect(l *layers.DHCPv4) (bool, *layers.DHCPv4) {
 			if o.Length != 0 || len(o.Data) != 0 {
 				ok = false
 			}
-			size++
 		default:
 			if int(o.Length) != len(o.Data) {
 				ok = false
 			}
-			size += 2 + len(o.Data)
 		}
-	}
-	if size > 65535 {
-		ok = false
 	}
 	w.HardwareLen = uint8(len(w.ClientHWAddr))
 	return ok, w
